@@ -7,6 +7,7 @@ import (
 	"path"
 	"path/filepath"
 	"strconv"
+	"strings"
 	"sync"
 
 	"go.uber.org/zap"
@@ -164,6 +165,12 @@ func (d *Directory) AddTimeBucket(tbk *io.TimeBucketKey, f *io.TimeBucketInfo) (
 	d.Lock()
 	defer d.Unlock()
 
+	// every key item becomes a directory name below the root: refuse items that
+	// would name something else ("", ".", ".."), and keys whose item and category
+	// counts differ
+	if err = validateKeyItems(tbk); err != nil {
+		return err
+	}
 	// refuse a schema the file header cannot hold before anything is created on disk
 	if err = f.ValidateSchema(); err != nil {
 		return fmt.Errorf("cannot create time bucket %s: %w", tbk.String(), err)
@@ -218,6 +225,20 @@ func (d *Directory) AddTimeBucket(tbk *io.TimeBucketKey, f *io.TimeBucketInfo) (
 
 // RemoveTimeBucket deletes the item at the last level specified in the dataItemKey
 // Also removes empty directories at the higher levels after the delete. This is used for a root catalog directory.
+func validateKeyItems(tbk *io.TimeBucketKey) error {
+	items := tbk.GetItems()
+	if len(items) != len(tbk.GetCategories()) {
+		return fmt.Errorf("time bucket key %q has %d items for %d categories",
+			tbk.String(), len(items), len(tbk.GetCategories()))
+	}
+	for _, item := range items {
+		if item == "" || item == "." || item == ".." || strings.ContainsAny(item, "/\\\x00") {
+			return fmt.Errorf("time bucket key %q contains an item that is not a plain name: %q", tbk.String(), item)
+		}
+	}
+	return nil
+}
+
 func (d *Directory) RemoveTimeBucket(tbk *io.TimeBucketKey) (err error) {
 	if d == nil {
 		return errors.New(io.GetCallerFileContext(0) + ": Directory called from is nil")
